@@ -28,9 +28,9 @@ func (t *tally) add(src int, admitted bool) {
 	}
 }
 
-// three threads, two sources, frozen clock: per source exactly min(requests, burst)
+// three threads, two sources, frozen clock (also the first contact of a source): per source exactly min(requests, burst)
 // requests are admitted whatever the interleaving (= every sequential order).
-func rlScenario(plan [][]int, bound int) *sched.Scenario {
+func rlScenario(prop string, plan [][]int, bound int) *sched.Scenario {
 	name := fmt.Sprintf("ratelimit-concurrent/plan=%v", plan)
 	sc := &sched.Scenario{Name: name, Bound: bound, Info: map[string]any{"plan": plan}}
 	sc.New = func() *sched.Instance {
@@ -69,7 +69,7 @@ func rlScenario(plan [][]int, bound int) *sched.Scenario {
 					want = burst
 				}
 				if t.ok[s] != want || t.ok[s]+t.rejected[s] != total[s] {
-					f = append(f, vrt.Failure{Key: "C14:ratelimit-concurrent:admissions-differ-from-sequential",
+					f = append(f, vrt.Failure{Key: prop + ":ratelimit-concurrent:admissions-differ-from-sequential",
 						Detail: fmt.Sprintf("source %s: %d of %d requests admitted at one instant, every sequential order admits %d", sources[s], t.ok[s], total[s], want)})
 				}
 			}
@@ -81,15 +81,15 @@ func rlScenario(plan [][]int, bound int) *sched.Scenario {
 	return sc
 }
 
-func Scenarios(tier string) []*sched.Scenario {
+func Scenarios(prop, tier string) []*sched.Scenario {
 	out := []*sched.Scenario{
-		rlScenario([][]int{{0, 0}, {0}, {1}}, -1),
-		rlScenario([][]int{{0, 1}, {1, 0}}, -1),
-		rlScenario([][]int{{0}, {0}, {0}}, -1),
+		rlScenario(prop, [][]int{{0, 0}, {0}, {1}}, -1),
+		rlScenario(prop, [][]int{{0, 1}, {1, 0}}, -1),
+		rlScenario(prop, [][]int{{0}, {0}, {0}}, -1),
 	}
 	if tier == "thorough" {
-		out = append(out, rlScenario([][]int{{0, 0}, {0}, {1, 1}}, -1), rlScenario([][]int{{0, 1}, {1, 0}, {0}}, -1),
-			rlScenario([][]int{{0, 0}, {0, 1}, {1, 1}, {1}}, 4))
+		out = append(out, rlScenario(prop, [][]int{{0, 0}, {0}, {1, 1}}, -1), rlScenario(prop, [][]int{{0, 1}, {1, 0}, {0}}, -1),
+			rlScenario(prop, [][]int{{0, 0}, {0, 1}, {1, 1}, {1}}, 4))
 	}
 	return out
 }
@@ -97,7 +97,11 @@ func Scenarios(tier string) []*sched.Scenario {
 func RunSched(tier string, sh lib.Shard, rep *lib.Report) {
 	rep.Rule = "stateless DFS over all interleavings of three threads sending requests of two sources through the real TokenLimiter at one frozen instant (scheduling points: limiter and TTL-map locks, in-handler yield); admissions per source must equal those of every sequential order; race detector on every schedule"
 	rep.Require("executions_with_preemption")
-	for _, sc := range Scenarios(tier) {
+	prop := rep.Property
+	if prop == "" {
+		prop = "C14"
+	}
+	for _, sc := range Scenarios(prop, tier) {
 		e := sched.NewExplorer(rep, sh, "c14s")
 		st := e.Explore(sc)
 		rep.Nontrivial += st.WithPreemption
@@ -108,7 +112,7 @@ func RunSched(tier string, sh lib.Shard, rep *lib.Report) {
 }
 
 func Find(prop, name string) *sched.Scenario {
-	for _, sc := range Scenarios("thorough") {
+	for _, sc := range Scenarios(prop, "thorough") {
 		if sc.Name == name {
 			return sc
 		}
